@@ -1,2 +1,2 @@
-import NipyVerif.Model.C01B
-def main : IO Unit := NipyVerif.driverLoop NipyVerif.C01.run2
+import NipyVerif.Model.C01W
+def main : IO Unit := NipyVerif.driverLoop NipyVerif.C01.run3
